@@ -468,7 +468,7 @@ func sameValue(a, b ssa.Value) bool { return a == b }
 func Returns(fn *ssa.Function) []*ssa.Return {
 	var out []*ssa.Return
 	Instrs(fn, func(i ssa.Instruction) {
-		if r, ok := i.(*ssa.Return); ok {
+		if r, ok := i.(*ssa.Return); ok && (fn.Recover == nil || r.Block() != fn.Recover) {
 			out = append(out, r)
 		}
 	})
